@@ -146,6 +146,13 @@ Theorem c11_relative_word_default_wd : forall cwd word,
 Proof. exact glue_path_relative_default. Qed.
 Print Assumptions c11_relative_word_default_wd.
 
+(* "." and ".." are left to the file system: no lexical folding (which is wrong across symbolic links) *)
+Theorem c11_dot_components_kept : forall cwd wd rest,
+  simple_abs wd = true -> last_is_sep wd = false ->
+  glue_path cwd wd (46 :: 46 :: 47 :: rest) = wd ++ 47 :: 46 :: 46 :: 47 :: rest.
+Proof. exact glue_path_keeps_dots. Qed.
+Print Assumptions c11_dot_components_kept.
+
 Theorem c11_absolute_word : forall cwd wd word, is_absolute word = true -> glue_path cwd wd word = word.
 Proof. exact glue_path_absolute. Qed.
 Print Assumptions c11_absolute_word.
